@@ -933,7 +933,7 @@ func c04sMatrix() []c04sCase {
 	for _, status := range []string{"200", "204", "304", "101", "101-upgrade", "042", "099", "500"} {
 		for _, framing := range []string{"len", "chunked", "cl0"} {
 			for _, proto := range []string{"HTTP/1.1", "HTTP/1.0"} {
-				for _, conn := range []string{"", "close", "keep-alive", "x, Close", "keep-alive, close"} {
+				for _, conn := range []string{"", "close", "keep-alive", "x, Close", "keep-alive, close", "x-foo\r\nConnection: close", "x-foo\r\nconnection: keep-alive", "not close"} {
 					for _, method := range []string{"GET", "HEAD"} {
 						for _, part := range []int{-1, 0, 1} {
 							for _, leftover := range []string{"", "x"} {
